@@ -307,3 +307,6 @@ def block_selector(option_name):
                         return n.body
         raise KeyError(option_name)
     return sel
+
+
+from .model_common import new_model  # noqa: E402,F401
